@@ -47,6 +47,8 @@ def qp_is_big(desc):
         if m:
             kinds[int(m.group(2))] = (m.group(1), int(m.group(3)) if m.group(3) else None)
     for i, (k, tgt) in kinds.items():
+        if k == "M":
+            return True
         if k in "CNGI":
             # harmless if it (transitively) targets a serial queue or workloop
             j = tgt
